@@ -106,9 +106,12 @@ Proof. exact Proofs.ExprExamples.zero_power_fold. Qed.
    by lexer and parser and the tree read back has the SAME VALUE at every point, defined or not; the folded tree
    returned by [parser] is that same tree.  Exact tree equality does not hold in general (the re-read tree carries
    paren flags where render put parentheses; (-a)*b is printed -a * b and reads back as -(a*b)).
-   MISSING for the full statement (hence _partial): numbers — the specification of `{}` on f64 and the shorthand
-   forms 4x, 2π, 5x^2, x2, x^2 that depend on it; on numbers the round trip is measured by the check on every case
-   (value comparison by the oracle, text comparison with the model). *)
+   Numbers: (a) itself is about digit-free text (hence _partial).  Trees WITH numbers, including every shorthand
+   form 4x, 2π, 5x^2, 4(x + 1)^2, x2, π2, x^2, are covered by (d) c19_display_roundtrip_numbers at the end of this
+   file, under a hypothesis on the number printer alone: each number v of the tree is printed as a text that the
+   lexer's number reader reads back as v.  What stays MEASURED, not proved: that Rust's `{}` on f64 meets this
+   hypothesis (shortest round-trip decimal without exponent) — the check compares the text with the model's
+   fmt_float and the re-read value with the oracle on every case. *)
 Theorem c19_display_roundtrip_partial : forall (fmt : R -> str) (s : str) (ts : list (token R)) (e : expr R),
   lexer s = Ok ts -> forallb not_tnum ts = true -> parse_unfolded ts = Ok e ->
   (exists e', reread fmt e = Ok e' /\ forall rho, denote e' rho = denote e rho) /\ parser ts = Ok e.
@@ -166,3 +169,63 @@ Example c19_display_nonvacuous :
   parser [TLParen; TLParen; tx; TOp OAdd; TOp OSub; ty; TRParen; TOp OMul; tz; TRParen; TOp OFac;
           TOp OCaret; TOp OSub; TLParen; tx; TOp ODiv; TConst KPi; TRParen] = Ok e.
 Proof. cbn zeta. split; reflexivity. Qed.
+
+(* (d) DISPLAY ROUND TRIP WITH NUMBERS (Proofs/ExprRoundTripNum.v).  [wfn e]: the shape the parser produces — number
+   leaves, one-letter variables other than e / E, constants, functions, prefix minus, postfix !, + - * / % ^ with
+   ANY paren flags.  Hypothesis on the printer [fmt], only for the numbers v occurring in e ([nums e]):
+   parse_unsigned_dec (fmt v) = Some v, i.e. the printed text is read back as v by the lexer's number reader (so it is
+   a non-empty run of digits with at most one '.', no sign, no exponent; satisfiable exactly for v = m * 10^k >= 0,
+   which is what the lexer produces — parser and fold never create another number than 0 and 1).  Then the text
+   of e — with every shorthand of Expr::render: 4x, 2π, 5x^2, 4(x + 1)^2 (but 2 * 3 ^ x), x2, π2, x^2, π^2 — is
+   accepted by the lexer; implied multiplication and parse_expr read it back as a tree X with the SAME VALUE as e at
+   every point, defined or not; [reread] (= with the final fold) returns e' = fold X, which has the value of e
+   wherever e has one (the fold may extend the domain: 0 * (1/0) becomes 0), and e' = X when no number of e is 0 or 1.
+   NOT covered: negative number leaves (no text parses to them; and x * (-3) would be printed x-3), multi-letter
+   variables and the variables e / E (finding F16k), explicit OCDot / OFac as binary tags. *)
+From SV Require Import Proofs.ExprRoundTripNum.
+Theorem c19_display_roundtrip_numbers : forall (fmt : R -> str) (e : expr R),
+  wfn e = true -> (forall v, In v (nums e) -> parse_unsigned_dec (fmt v) = Some v) ->
+  exists ts X e',
+    lexer (display fmt e) = Ok ts /\ parse_unfolded ts = Ok X /\
+    (forall rho, denote X rho = denote e rho) /\
+    reread fmt e = Ok e' /\ fold_operations X = Ok e' /\
+    (forall rho v, denote e rho = Some v -> denote e' rho = Some v) /\
+    ((forall v, In v (nums e) -> v <> 0%R /\ v <> 1%R) -> e' = X).
+Proof. exact Proofs.ExprRoundTripNum.c19_display_roundtrip_numbers_lemma. Qed.
+Check c19_display_roundtrip_numbers : forall (fmt : R -> str) (e : expr R),
+  wfn e = true -> (forall v, In v (nums e) -> parse_unsigned_dec (fmt v) = Some v) ->
+  exists ts X e',
+    lexer (display fmt e) = Ok ts /\ parse_unfolded ts = Ok X /\
+    (forall rho, denote X rho = denote e rho) /\
+    reread fmt e = Ok e' /\ fold_operations X = Ok e' /\
+    (forall rho v, denote e rho = Some v -> denote e' rho = Some v) /\
+    ((forall v, In v (nums e) -> v <> 0%R /\ v <> 1%R) -> e' = X).
+Print Assumptions c19_display_roundtrip_numbers.
+
+(* the number lemma behind it: a text that the number reader accepts, followed by anything that does not start with
+   a digit or '.', is lexed as that one number token ([Lexes s ts]: lex_loop s = Ok ts for every sufficient fuel) *)
+Theorem c19_lexer_reads_printed_number : forall (x : R) (s rest : str) (r : list (token R)),
+  parse_unsigned_dec s = Some x -> nonum_head rest -> Lexes rest r -> Lexes (s ++ rest) (TNum x :: r).
+Proof. exact Proofs.ExprRoundTripNum.lexes_num. Qed.
+Check c19_lexer_reads_printed_number : forall (x : R) (s rest : str) (r : list (token R)),
+  parse_unsigned_dec s = Some x -> nonum_head rest -> Lexes rest r -> Lexes (s ++ rest) (TNum x :: r).
+Print Assumptions c19_lexer_reads_printed_number.
+
+(* the class [wfn] is the parser's image: whatever lexer + parse_unfolded make of ANY text (numbers included) has
+   this shape, so (d) applies to every tree the parser produces from text, given the printer hypothesis on its numbers *)
+Theorem c19_parser_image_shape : forall (s : str) (ts : list (token R)) (e : expr R),
+  lexer s = Ok ts -> parse_unfolded ts = Ok e -> wfn e = true.
+Proof. exact Proofs.ExprRoundTripNum.parser_image_wfn. Qed.
+Check c19_parser_image_shape : forall (s : str) (ts : list (token R)) (e : expr R),
+  lexer s = Ok ts -> parse_unfolded ts = Ok e -> wfn e = true.
+Print Assumptions c19_parser_image_shape.
+
+(* non-vacuity: the printer fmt24 ("4" for 4, "2" for every other number) meets the hypothesis on the numbers of
+   4·x^2 + 2·π; the tree has two shorthand products and a shorthand power, its text is "4x^2 + 2π", and the tree
+   read back has the same value everywhere *)
+Example c19_roundtrip_numbers_nonvacuous :
+  wfn e_4x2_2pi = true /\
+  (forall v, In v (nums e_4x2_2pi) -> parse_unsigned_dec (fmt24 v) = Some v) /\
+  display fmt24 e_4x2_2pi = [52; 120; 94; 50; 32; 43; 32; 50; 960]%N /\
+  exists e', reread fmt24 e_4x2_2pi = Ok e' /\ forall rho, denote e' rho = denote e_4x2_2pi rho.
+Proof. exact Proofs.ExprRoundTripNum.example_numbers. Qed.
